@@ -69,7 +69,8 @@ def conf_dict_to_tlv(conf_dict: ConfDict) -> list[bytes]:
     last_postface = bytes()
     for preface, data, postface in tlv_parts:
         if (
-            len(tlv_blocks[-1] + last_postface + preface + data + postface)
+            len(tlv_blocks[-1]) > 0
+            and len(tlv_blocks[-1] + last_postface + preface + data + postface)
             > MAX_TLVBLOCK_SIZE
         ):
             tlv_blocks[-1] += last_postface
